@@ -282,6 +282,69 @@ def exhaustive_aggregators(ctx, pending):
                                 ('rows', [dict(target[0], out=got)], [])))
 
 
+def typed_values(ctx):
+    """values of every cell type through the (on-disk capable) index: what a value-carrying aggregate returns IS one of
+    the source values - same type, same sub-second part, same UTC offset"""
+    import datetime as dt
+    import decimal
+    rep = ctx.report
+    tz = dt.timezone(dt.timedelta(hours=-5))
+    kinds = {
+        'datetime-micro': [dt.datetime(2021, 3, 4, 10, 0, 0, 900000), dt.datetime(2021, 3, 4, 10, 0, 0, 100), dt.datetime(2020, 1, 1)],
+        'datetime-tz': [dt.datetime(2021, 3, 4, 10, 0, tzinfo=tz), dt.datetime(2021, 3, 4, 9, 0, tzinfo=dt.timezone.utc),
+                        dt.datetime(2021, 3, 5, 1, 0, tzinfo=tz)],
+        'time-micro': [dt.time(1, 2, 3, 500000), dt.time(1, 2, 3, 4), dt.time(0, 0)],
+        'date': [dt.date(2020, 2, 29), dt.date(1000, 1, 1), dt.date(2020, 3, 1)],
+        'decimal': [decimal.Decimal('1.50'), decimal.Decimal('1.5000001'), decimal.Decimal('-0.001')],
+        'bigint': [2 ** 70, -2 ** 65, 3],
+        'text': ['é', 'e\u0301', ''],
+        'list': [[1, 'a'], [1, 'a', None], []],
+    }
+    aggs = ['first', 'last', 'any', 'min', 'max', 'array', 'set']
+    for kname, vals in kinds.items():
+        for agg in aggs:
+            if agg in ('min', 'max', 'set') and kname in ('list',):
+                continue     # arrays are neither ordered nor hashable: not a well-typed use
+            if kname == 'text' and agg in ('min', 'max'):
+                vals_k = ['é', 'z', 'a']
+            else:
+                vals_k = vals
+            source = [{'k': 1, 'v': v} for v in vals_k]
+            target = [{'k': 1}]
+            case = {'typed-values': kname, 'aggregator': agg}
+            try:
+                with quiet():
+                    res = Flow(copy.deepcopy(source), copy.deepcopy(target),
+                               DF.join('res_1', ['k'], 'res_2', ['k'], {'out': {'name': 'v', 'aggregate': agg}}))\
+                        .results(on_error=None)[0]
+            except Exception as e:  # noqa
+                rep.case('typed-values', case, nontrivial=False)
+                rep.fail('typed-values:%s:%s:raises' % (agg, kname), case, repr(e)[:300])
+                continue
+            rep.case('typed-values', case)
+            got = res[0][0].get('out')
+            nn = [v for v in vals_k if v is not None and v != '']
+            want = {'first': nn[0], 'last': nn[-1], 'any': nn[-1], 'min': min(nn) if agg == 'min' else None,
+                    'max': max(nn) if agg == 'max' else None, 'array': nn, 'set': None}[agg]
+
+            def same(a, b):
+                if type(a) is not type(b) or a != b:
+                    return False
+                if isinstance(a, dt.datetime):
+                    return a.utcoffset() == b.utcoffset() and a.microsecond == b.microsecond
+                if isinstance(a, list):
+                    return len(a) == len(b) and all(same(x, y) for x, y in zip(a, b))
+                return True
+            if agg == 'set':
+                ok = isinstance(got, (list, set, tuple)) and len(list(got)) == len(nn) and all(any(same(g, w) for w in nn) for g in got)
+            elif agg == 'array':
+                ok = isinstance(got, list) and same(got, want)
+            else:
+                ok = same(got, want)
+            if not ok:
+                rep.fail('typed-values:%s:%s' % (agg, kname), case, {'expected': repr(want if agg != 'set' else nn)[:200], 'got': repr(got)[:200]})
+
+
 def run(ctx):
     rep = ctx.report
     rep.rule = ('source/target tables of 0-12 rows with duplicate, missing and null keys x key as field list (1-2 fields), '
@@ -296,6 +359,8 @@ def run(ctx):
     for _ in range(ctx.n(500, 8000)):
         join_case(ctx, rng, pending)
     exhaustive_aggregators(ctx, pending)
+    with quiet():
+        typed_values(ctx)
     for _ in range(ctx.n(1, 4)):
         join_case(ctx, rng, pending, big=True)
     if ctx.model.available():
